@@ -3,6 +3,7 @@ package mint
 import (
 	"encoding/hex"
 
+	"github.com/decred/dcrd/dcrec/secp256k1/v4"
 	"github.com/elnosh/gonuts/cashu/nuts/nut04"
 	"github.com/elnosh/gonuts/cashu/nuts/nut05"
 	"github.com/elnosh/gonuts/mint/storage"
@@ -29,17 +30,24 @@ func (env *vhEnv) balanceZ(nSigs, nProofs int) (issued, redeemed v.Z) {
 // mintQuote stores (through the real SaveMintQuote) a mint quote with symbolic fields; returns nil if the
 // model chose to have no such quote
 func (env *vhEnv) mintQuote(tag string, withLock bool) *storage.MintQuote {
+	q, _ := env.mintQuoteK(tag, withLock)
+	return q
+}
+
+func (env *vhEnv) mintQuoteK(tag string, withLock bool) (*storage.MintQuote, *secp256k1.PrivateKey) {
+	var lock *secp256k1.PrivateKey
 	if v.Int(tag+".present", 0, 1) == 0 {
-		return nil
+		return nil, nil
 	}
 	q := storage.MintQuote{Id: v.Str(tag + ".id"), Amount: v.U64(tag + ".amount"), PaymentRequest: v.Str(tag + ".request"),
 		PaymentHash: v.Str(tag + ".hash"), State: nut04.State(v.Int(tag+".state", 0, 3)), Expiry: 1}
 	v.Assume(q.Amount < vhMaxMsatAmount)
 	if withLock && v.Int(tag+".locked", 0, 1) == 1 {
-		q.Pubkey = v.Priv(tag + ".lockkey").PubKey()
+		lock = v.Priv(tag + ".lockkey")
+		q.Pubkey = lock.PubKey()
 	}
 	v.Assume(env.db.SaveMintQuote(q) == nil)
-	return &q
+	return &q, lock
 }
 
 // One RequestMintQuote from an arbitrary ledger state with arbitrary limits.
